@@ -21,7 +21,10 @@ export GOPROXY=off GOSUMDB=off GOTOOLCHAIN=local
 WT=/tmp/benigncheck-$$-$(basename $P .diff)
 git -C /repo worktree add -q $WT HEAD || exit 2
 trap 'git -C /repo worktree remove --force $WT; H=$(python3 -c "import hashlib,os;print(hashlib.sha256(os.path.abspath(\"$WT\").encode()).hexdigest()[:12])"); rm -f /verif/.work/bin/*.$H.test /verif/.work/bin/*.$H.race.test /verif/.work/alt-$H.mod /verif/.work/alt-$H.sum' EXIT
-if ! git -C $WT apply $P 2>/dev/null; then echo "BENIGN $P does-not-apply"; exit 0; fi
+# the repository may have been repaired near the patched lines since the change was stored: fall back to patch(1) with fuzz
+if ! git -C $WT apply $P 2>/dev/null; then
+  if (cd $WT && patch -p1 -s --no-backup-if-mismatch < $P >/dev/null 2>&1) && (cd $WT && GOFLAGS= go build ./... 2>/dev/null); then echo "NOTE patch applied with fuzz"; else echo "BENIGN $P does-not-apply"; exit 0; fi
+fi
 if ! (cd $WT && GOFLAGS= go build ./... >/dev/null 2>&1 && cd gcetcbendorsement && GOFLAGS= go build ./... >/dev/null 2>&1); then echo "BENIGN $P does-not-build"; exit 0; fi
 for ID in $IDS; do
   OUT=$(GOFLAGS=-mod=mod VERIF_REPO=$WT python3 run.py $ID ${TIER:-quick} 2>&1); RC=$?
